@@ -343,6 +343,48 @@ def write_jsonl(path, items):
             f.write(json.dumps(it, sort_keys=True) + "\n")
 
 
+
+# --------------------------------------------------------------------------
+# Anchor drift: which function bodies of /repo differ from the ones the model was last validated against
+
+ANCHORS = os.path.join(ROOT, "anchors.json")
+
+
+def read_anchors(binp):
+    path = os.path.join(CACHE, "anchors_now_%d.jsonl" % os.getpid())
+    rc, log = run_harness(["anchors", "-repo", REPO, "-out", path], binp=binp, timeout=120)
+    if rc != 0 or not os.path.exists(path):
+        return None
+    d = {}
+    for r in read_jsonl(path):
+        d[r["file"] + "|" + r["func"]] = r["digest"]
+    os.remove(path)
+    return d
+
+
+def property_files(pid):
+    for line in open(os.path.join(ROOT, "properties.jsonl")):
+        p = json.loads(line)
+        if p.get("id") == pid:
+            return list((p.get("anchors") or {}).get("files") or [])
+    return []
+
+
+def anchor_drift(pid, binp):
+    """Declarations (functions, methods, const/var/type groups) of /repo's non-test sources whose AST digest differs
+    from the committed baseline anchors.json.  Never decides anything: recorded in the evidence, and a drift inside
+    the property's anchor files doubles the number of generated histories at the quick tier."""
+    now = read_anchors(binp)
+    if now is None or not os.path.exists(ANCHORS):
+        return dict(available=False)
+    base = json.load(open(ANCHORS))
+    bf = base["decls"]
+    changed = sorted(k for k in set(bf) | set(now) if bf.get(k) != now.get(k))
+    pf = set(property_files(pid))
+    mine = [k for k in changed if k.split("|")[0] in pf]
+    return dict(available=True, baseline_repo_commit=base.get("repo_commit"), declarations=len(now),
+                changed=changed[:40], changed_count=len(changed), changed_in_property_files=mine[:40])
+
 # --------------------------------------------------------------------------
 # Verdict, evidence
 
